@@ -13,7 +13,7 @@ TIMEOUT = {"quick": 700, "thorough": 3400}
 THREADS = {"quick": 1, "thorough": 1}
 RULE = (
     "per case: one generated 3-body card (2-3 chains, spins incl. 1/2) x parameters by name x toy data/phsp/bg samples with "
-    "{unit, positive, mixed-sign, zero-containing} event weights x likelihood model (rotating over default, extended, cfit, "
+    "{unit, positive, mixed-sign, zero-containing} event weights x {unit, positive, mixed-sign} phase-space weights x likelihood model (rotating over default, extended, cfit, "
     "cfit_cached, cfit_extended, cached_int, cached_amp, simple) x batch sizes {n, n-1, ceil(n/2), 7, 50, 65000}: the value "
     "from FCN.__call__, nll_grad[0], nll_grad_hessian[0] vs the NumPy formula evaluated on per-event densities from one "
     "un-batched eager call; common rescaling of all couplings (non-extended); CombineFCN vs the sum of its parts; Gaussian "
@@ -31,7 +31,8 @@ REQUIRE = {
     "monitors": {"NLL == formula": 20, "NLL independent of batch size": 20, "value consistent across entry points": 20,
                  "invariant under common rescaling": 5, "CombineFCN == sum of parts": 3, "file loader NLL == formula": 2,
                  "gaussian constraint term": 3},
-    "cover": {"model": ["default", "extended", "cfit", "cfit_cached", "cfit_extended", "cached_int", "cached_amp", "simple"]},
+    "cover": {"model": ["default", "extended", "cfit", "cfit_cached", "cfit_extended", "cached_int", "cached_amp", "simple"],
+              "phsp_weights": ["ones", "positive", "mixed_mild"]},
     "min_nontrivial": {"quick": 20, "thorough": 300},
 }
 LEVEL_TEXT = ("Differential runtime monitor: every NLL value the likelihood objects return (FCN.__call__, nll_grad, nll_grad_hessian, "
@@ -76,7 +77,7 @@ def run(ctx):
             card["config"].setdefault("constrains", {})["gauss_constr"] = {r0["name"] + "_mass": [r0["m0"] + 0.01, 0.02]}
             gauss = {r0["name"] + "_mass": (r0["m0"] + 0.01, 0.02)}
         ctx.context = {"model": model, "weights": wkind, "card": cards.short(card), "index": i}
-        desc = lambda: {"model": model, "weights": wkind, "opts": opts, "config": card["config"], "param_key": [ctx.seed, i]}
+        desc = lambda: {"model": model, "weights": wkind, "phsp_weights": phsp_kind, "opts": opts, "config": card["config"], "param_key": [ctx.seed, i]}
         try:
             with lik.quiet():
                 cfg = cards.load(card, extra_data=opts)
@@ -91,7 +92,8 @@ def run(ctx):
         cfit = kind == "cfit"
         # cfit models take no separate background sample; weights of zero are legal for every model
         data = lik.make_sample(cfg, card, n, rng, wkind, cfit=cfit)
-        phsp = lik.make_sample(cfg, card, nmc, rng, "positive" if i % 3 == 0 else "ones", cfit=cfit)
+        phsp_kind = ["positive", "ones", "mixed_mild"][i % 3]
+        phsp = lik.make_sample(cfg, card, nmc, rng, phsp_kind, cfit=cfit)
         bg = None
         if not cfit and i % 4 != 3:
             bg = lik.make_sample(cfg, card, 23, rng, "ones")
@@ -142,6 +144,7 @@ def run(ctx):
         ctx.case((model, wkind, cards.card_digest_key(card), tuple(batches)), nontrivial=wkind != "ones" or any(n_tot % b for b in batches if b < n_tot))
         ctx.covered("model", model)
         ctx.covered("weights", wkind)
+        ctx.covered("phsp_weights", phsp_kind)
         # rescaling invariance (non-extended)
         if "extended" not in model and i % 2 == 0:
             s = float(rng.uniform(0.3, 3.0))
